@@ -1,7 +1,7 @@
 /-
   Helper lemmas for C04 (geometry-builder protocol): invariants of `BuffersBuilder` under
   `add_*_vertex` / `add_triangle`, and their transport through the request runners
-  `runQ` / `runIgn` / `strokeEvents` and the sink wrappers `invert` / `refuseAt`.
+  `runQ` / `strokeEvents` and the sink wrappers `invert` / `refuseAt`.
 -/
 import LyonVerif.Model.Tess.Skeleton
 
@@ -42,24 +42,6 @@ theorem runQ_preserves {σ : Type} {S : Sink σ} {P : σ → Prop} (h : S.Preser
       · next s' e heq => rw [heq] at hv; exact hv
     | t a b c =>
       unfold runQ
-      exact ih _ _ (h.tri _ _ _ _ hp)
-
-theorem runIgn_preserves {σ : Type} {S : Sink σ} {P : σ → Prop} (h : S.Preserves P) :
-    ∀ (core : List CReq) (s : σ) (ids : List Nat), P s → P (runIgn S core s ids).1 := by
-  intro core
-  induction core with
-  | nil => intro s ids hp; simpa [runIgn] using hp
-  | cons r rest ih =>
-    intro s ids hp
-    cases r with
-    | v p =>
-      have hv := h.vertex s p hp
-      unfold runIgn
-      split
-      · next s' i heq => rw [heq] at hv; exact ih _ _ hv
-      · next s' e heq => rw [heq] at hv; exact ih _ _ hv
-    | t a b c =>
-      unfold runIgn
       exact ih _ _ (h.tri _ _ _ _ hp)
 
 theorem strokeEvents_preserves {σ : Type} {S : Sink σ} {P : σ → Prop} (h : S.Preserves P) :
@@ -145,32 +127,6 @@ theorem runQ_calls {σ : Type} (S : Sink σ) :
         rcases hc with rfl | hc
         · exact Or.inr ⟨_, _, _, rfl⟩
         · exact hall c' hc
-
-theorem runIgn_body {σ : Type} (S : Sink σ) :
-    ∀ (core : List CReq) (s : σ) (ids : List Nat), ∀ c ∈ (runIgn S core s ids).2, c.isBody = true := by
-  intro core
-  induction core with
-  | nil => intro s ids c hc; simp [runIgn] at hc
-  | cons r rest ih =>
-    intro s ids c hc
-    cases r with
-    | v p =>
-      unfold runIgn at hc
-      split at hc
-      · simp only [List.mem_cons] at hc
-        rcases hc with rfl | hc
-        · rfl
-        · exact ih _ _ c hc
-      · simp only [List.mem_cons] at hc
-        rcases hc with rfl | hc
-        · rfl
-        · exact ih _ _ c hc
-    | t a b d =>
-      unfold runIgn at hc
-      simp only [List.mem_cons] at hc
-      rcases hc with rfl | hc
-      · rfl
-      · exact ih _ _ c hc
 
 theorem strokeEvents_calls {σ : Type} (S : Sink σ) :
     ∀ (evs : List (List CReq)) (s : σ) (ids : List Nat),
